@@ -1,4 +1,4 @@
-from collections.abc import Iterable, Sequence
+from collections.abc import Iterable, Sequence, Sized
 from functools import total_ordering
 from typing import Any, TypeVar, cast, overload
 
@@ -134,7 +134,7 @@ class PersistentVector(
     def __eq__(self, other):
         if self is other:
             return True
-        if hasattr(other, "__len__") and len(self) != len(other):
+        if isinstance(other, Sized) and len(self) != len(other):
             return False
         return seq_equals(self, other)
 
